@@ -51,6 +51,8 @@ type stats struct {
 	EvalGuards  int      `json:"eval_guards"`
 	SyncFiles   []string `json:"sync_files"`
 	AccessSites []string `json:"access_sites"`
+	FieldSites  int      `json:"field_access_sites"`
+	Mutable     []string `json:"fields_written_after_construction"`
 	Tables      []string `json:"tables"`
 	Exports     []string `json:"exports"`
 }
@@ -86,6 +88,11 @@ func main() {
 		fatalf("repository does not type-check")
 	}
 	sort.Slice(pkgs, func(i, j int) bool { return pkgs[i].PkgPath < pkgs[j].PkgPath })
+	mutable := collectMutableFields(pkgs)
+	for k := range mutable {
+		st.Mutable = append(st.Mutable, k)
+	}
+	sort.Strings(st.Mutable)
 	for _, p := range pkgs {
 		if !strings.HasPrefix(p.PkgPath, modPath) {
 			continue
@@ -122,6 +129,12 @@ func main() {
 			// --- access (package object)
 			if len(tables) > 0 {
 				if n := insertAccess(p, f, relFile, tables, st); n > 0 {
+					changed, needRT = true, true
+				}
+			}
+			// --- field accesses of object-package structs (fields that are assigned somewhere)
+			if top == "evaluator" || top == "props" || top == "object" || top == "di" {
+				if n := insertFieldAccess(p, f, relFile, mutable, st); n > 0 {
 					changed, needRT = true, true
 				}
 			}
@@ -426,6 +439,195 @@ func insertAccess(p *packages.Package, f *ast.File, relFile string, tables map[t
 			fd.Body.List = doList(fd.Body.List)
 		}
 	}
+	return n
+}
+
+// objField resolves a selector to "Type.field" if it selects a field of a struct type declared in package
+// object through a pointer-typed plain identifier (so that passing the identifier has no side effect).
+func objField(p *packages.Package, sel *ast.SelectorExpr) (string, *ast.Ident, bool) {
+	id, ok := sel.X.(*ast.Ident)
+	if !ok {
+		return "", nil, false
+	}
+	sl := p.TypesInfo.Selections[sel]
+	if sl == nil || sl.Kind() != types.FieldVal || len(sl.Index()) != 1 {
+		return "", nil, false
+	}
+	t := p.TypesInfo.TypeOf(id)
+	if t == nil {
+		return "", nil, false
+	}
+	pt, ok := t.(*types.Pointer)
+	if !ok {
+		return "", nil, false
+	}
+	named, ok := pt.Elem().(*types.Named)
+	if !ok || named.Obj().Pkg() == nil || named.Obj().Pkg().Path() != modPath+"/object" {
+		return "", nil, false
+	}
+	if _, isStruct := named.Underlying().(*types.Struct); !isStruct {
+		return "", nil, false
+	}
+	return named.Obj().Name() + "." + sel.Sel.Name, id, true
+}
+
+// lhsField returns the field selector written by an assignment target: x.f, x.f[i], (*x.f)[i], *x.f.
+func lhsField(e ast.Expr) *ast.SelectorExpr {
+	for {
+		switch x := e.(type) {
+		case *ast.ParenExpr:
+			e = x.X
+		case *ast.IndexExpr:
+			e = x.X
+		case *ast.StarExpr:
+			e = x.X
+		case *ast.SelectorExpr:
+			return x
+		default:
+			return nil
+		}
+	}
+}
+
+// collectMutableFields finds the fields (of object-package structs) that are assigned, or whose map/slice
+// contents are assigned, by some statement of the repository.
+func collectMutableFields(pkgs []*packages.Package) map[string]bool {
+	res := map[string]bool{}
+	for _, p := range pkgs {
+		if !strings.HasPrefix(p.PkgPath, modPath) {
+			continue
+		}
+		for i, f := range p.Syntax {
+			if strings.HasSuffix(p.CompiledGoFiles[i], "_test.go") {
+				continue
+			}
+			ast.Inspect(f, func(nd ast.Node) bool {
+				var lhs []ast.Expr
+				switch x := nd.(type) {
+				case *ast.AssignStmt:
+					if x.Tok != token.DEFINE {
+						lhs = x.Lhs
+					}
+				case *ast.IncDecStmt:
+					lhs = []ast.Expr{x.X}
+				}
+				for _, l := range lhs {
+					if sel := lhsField(l); sel != nil {
+						if name, _, ok := objField(p, sel); ok {
+							res[name] = true
+						}
+					}
+				}
+				return true
+			})
+		}
+	}
+	return res
+}
+
+// insertFieldAccess inserts verifrt.Field(x, "T.f", write) before every statement whose own expressions
+// read or write such a field through an identifier declared before the statement.
+func insertFieldAccess(p *packages.Package, f *ast.File, relFile string, mutable map[string]bool, st *stats) int {
+	n := 0
+	type acc struct {
+		id    *ast.Ident
+		name  string
+		write bool
+	}
+	scan := func(s ast.Stmt) []acc {
+		var res []acc
+		seen := map[string]int{}
+		written := map[*ast.SelectorExpr]bool{}
+		add := func(sel *ast.SelectorExpr, write bool) {
+			name, id, ok := objField(p, sel)
+			if !ok || !mutable[name] {
+				return
+			}
+			obj := p.TypesInfo.Uses[id]
+			if obj == nil || obj.Pos() >= s.Pos() {
+				return // declared by the statement itself (or unknown): cannot be passed before it
+			}
+			k := id.Name + "." + name
+			if i, dup := seen[k]; dup {
+				if write {
+					res[i].write = true
+				}
+				return
+			}
+			seen[k] = len(res)
+			res = append(res, acc{id, name, write})
+		}
+		ast.Inspect(s, func(nd ast.Node) bool {
+			switch x := nd.(type) {
+			case *ast.BlockStmt, *ast.FuncLit:
+				if nd != ast.Node(s) {
+					return false
+				}
+			case *ast.CaseClause, *ast.CommClause:
+				return false
+			case *ast.AssignStmt:
+				if x.Tok != token.DEFINE {
+					for _, l := range x.Lhs {
+						if sel := lhsField(l); sel != nil {
+							written[sel] = true
+						}
+					}
+				}
+			case *ast.IncDecStmt:
+				if sel := lhsField(x.X); sel != nil {
+					written[sel] = true
+				}
+			case *ast.SelectorExpr:
+				add(x, written[x])
+			}
+			return true
+		})
+		return res
+	}
+	var doList func(list []ast.Stmt) []ast.Stmt
+	var walk func(nd ast.Node)
+	doList = func(list []ast.Stmt) []ast.Stmt {
+		var outl []ast.Stmt
+		for _, s := range list {
+			switch s.(type) {
+			case *ast.BlockStmt, *ast.LabeledStmt:
+			default:
+				for _, a := range scan(s) {
+					w := "false"
+					if a.write {
+						w = "true"
+					}
+					outl = append(outl, callStmt("Field", ast.NewIdent(a.id.Name), strLit(a.name), ast.NewIdent(w)))
+					n++
+				}
+			}
+			walk(s)
+			outl = append(outl, s)
+		}
+		return outl
+	}
+	walk = func(nd ast.Node) {
+		ast.Inspect(nd, func(x ast.Node) bool {
+			switch b := x.(type) {
+			case *ast.BlockStmt:
+				b.List = doList(b.List)
+				return false
+			case *ast.CaseClause:
+				b.Body = doList(b.Body)
+				return false
+			case *ast.CommClause:
+				b.Body = doList(b.Body)
+				return false
+			}
+			return true
+		})
+	}
+	for _, d := range f.Decls {
+		if fd, ok := d.(*ast.FuncDecl); ok && fd.Body != nil {
+			fd.Body.List = doList(fd.Body.List)
+		}
+	}
+	st.FieldSites += n
 	return n
 }
 
